@@ -347,3 +347,5 @@ def run(ck: Check, repo: Repo) -> None:
     rule_plumbing(ck, repo)
     rule_target(ck, repo)
     rule_styles(ck, repo, folder)
+    from . import c09
+    c09.rule_no_mutation(ck, repo, "R6")
